@@ -46,12 +46,18 @@ meta['check_lines'] = [l[:300] for l in lines[:12]]
 meta['detected'] = pc.returncode == 1 and any(l.startswith('VIOLATION') for l in lines)
 if os.path.exists(notes):
     meta['needs_to_manifest'] = open(notes).read()[:3000]
+else:
+    try:
+        meta['needs_to_manifest'] = json.load(open(os.path.join('/verif/seeded', sid, 'meta.json'))).get('needs_to_manifest', '')
+    except Exception:
+        pass
 shutil.rmtree(D)
 out = os.path.join('/verif/seeded', sid)
 if confirmed:
     os.makedirs(out, exist_ok=True)
-    shutil.copy(patch, os.path.join(out, 'patch.diff'))
-    shutil.copy(demo, os.path.join(out, 'demo.py'))
+    if os.path.realpath(sdir) != os.path.realpath(out):
+        shutil.copy(patch, os.path.join(out, 'patch.diff'))
+        shutil.copy(demo, os.path.join(out, 'demo.py'))
     json.dump(meta, open(os.path.join(out, 'meta.json'), 'w'), indent=1)
 print(json.dumps({k: meta[k] for k in ('id', 'confirmed', 'tests_with_change', 'demo_exit_without_change', 'demo_exit_with_change', 'check_exit', 'detected')}))
 for l in meta['check_lines'][:6]:
